@@ -16,10 +16,15 @@ recovery-before-candidates, retry-consults-manifests, batch constants).
 DuckDB is a hypothesis, never an axiom: `DedupSpec d` says the dedup query at level `L` returns a
 sub-multiset of its input containing exactly one row of every (tags,time) key.
 
-Two clauses of the property are FALSE of the current tree (confirmed on the real code by the
-harness, see `C09_full_witness` and `C09_level_witness`); the full statement is kept below as
-`FullStatement`, proved under explicit carve-outs (`C09_full_partial`) and for the repaired retry
-path (`C09_full_fixed`, `C09_full_generated`).
+Status. The retry path was repaired in /repo (a5dca86: `CompactPartition` settles a failed job's
+manifest before the batch is retried); the regenerated fact `retryConsultsManifests` is now `true`
+and `C09_full` — the statement for ALL kill/crash/torn-upload positions — is the theorem in force
+for the current source (a regression flips the fact and breaks `C09_full`). `C09_full_witness`
+shows that the fact is necessary (the same configuration without it duplicates rows).
+One clause is still FALSE of the current tree (known finding, reproduced on the real code by the
+harness): partitions whose files declare DIFFERENT tag sets (or none) lose rows that differ only in
+an undeclared tag — `C09_level_witness`; `FullStatement` therefore carries the explicit carve-out
+`UniformLevel`.
 -/
 namespace Arc.C09
 open Arc.Generated.C09
@@ -250,18 +255,31 @@ theorem C09_full_partial (a b : Nat) (d : Nat → List Row → List Row) (hd : D
     ((∀ x ∈ fs, x.2.level = 0) → (visible s').Perm (rowsOf fs)) :=
   full_of _ hd C09_job_order (C09_recovery_branches a b d) rfl fs L plans (Or.inr hsafe) hi hu
 
-/-! ### witnesses: the two input classes on which the current tree violates the statement -/
+/-- **C09_full** for the CURRENT source: every partition of uniform dedup level, every history of
+cycles with kills, crashes and torn uploads at every storage mutation of every job, then one
+fault-free cycle: no manifest pending, visible rows = collapse of the original rows (exactly the
+original multiset without dedup metadata). Consumes the regenerated facts: job order, recovery
+branches, recovery-before-candidates and `retryConsultsManifests = true`. -/
+theorem C09_full (a b : Nat) (d : Nat → List Row → List Row) (hd : DedupSpec d) :
+    FullStatement (genCfg a b d) :=
+  C09_full_generated (by decide) a b d hd
+
+/-! ### witnesses -/
 
 def wrow (i : Nat) : Row := { rid := i, k1 := i, k2 := i, k3 := i }
 def wfile (i : Nat) : Path × File := (i, { rows := [wrow i], level := 0, isOut := false, complete := true })
 /-- four one-row files without dedup metadata -/
 def wfiles : Files := [wfile 0, wfile 1, wfile 2, wfile 3]
 
-/-- Finding 1 (duplicates): job killed after the upload (2 mutations done), `compactFilesAdaptively`
-re-compacts both halves, the first output stays: after the quiescing cycle row 0 is visible twice. -/
-theorem C09_full_witness : retryConsultsManifests = false →
-    (visible (cycle (genCfg 2 30 dedupFirst) [] []
-      (runCycles (genCfg 2 30 dedupFirst) [[{ job := 0, pos := 2, kind := .kill }]] (initSt wfiles))).st).count (wrow 0) = 2
+/-- the source's configuration WITHOUT the retry repair (the tree before a5dca86) -/
+def unrepaired : Cfg := { genCfg 2 30 dedupFirst with retryRecovers := false }
+
+/-- Necessity of the repaired retry path (fixed finding 1): without it, a job killed after the
+upload (2 mutations done) is re-compacted in halves by `compactFilesAdaptively` while its first
+output stays: after the quiescing cycle row 0 is visible twice. -/
+theorem C09_full_witness :
+    (visible (cycle unrepaired [] []
+      (runCycles unrepaired [[{ job := 0, pos := 2, kind := .kill }]] (initSt wfiles))).st).count (wrow 0) = 2
     ∧ (rowsOf wfiles).count (wrow 0) = 1 := by decide
 
 /-- a legacy file (no metadata) whose two rows differ only in `region`, next to a file tagged `host` -/
@@ -270,7 +288,7 @@ def lfiles : Files :=
          level := 0, isOut := false, complete := true }),
    (1, { rows := [{ rid := 2, k1 := 1, k2 := 1, k3 := 2 }], level := 2, isOut := false, complete := true })]
 
-/-- Finding 2 (loss, no fault needed): the job dedups at the union level `host` although one input
+/-- Known finding (loss, no fault needed): the job dedups at the union level `host` although one input
 declares no tags (and compaction outputs never do): rows differing in an undeclared tag collapse. -/
 theorem C09_level_witness :
     (visible (cycle (genCfg 2 30 dedupFirst) [] [] (initSt lfiles)).st).count { rid := 1, k1 := 0, k2 := 0, k3 := 1 } = 0 ∧
@@ -374,9 +392,8 @@ theorem dedupFirst_spec : DedupSpec dedupFirst := by
   · cases h
   · exact h
 
-/-- the full theorem instantiated: the repaired configuration with the model's dedup -/
-example : FullStatement { genCfg 2 30 dedupFirst with retryRecovers := true } :=
-  C09_full_fixed 2 30 dedupFirst dedupFirst_spec
+/-- the full theorem instantiated: the current source's configuration with the model's dedup -/
+example : FullStatement (genCfg 2 30 dedupFirst) := C09_full 2 30 dedupFirst dedupFirst_spec
 
 example : InitOk wfiles ∧ UniformLevel 0 wfiles := by
   refine ⟨⟨by decide, by decide, by decide⟩, by unfold UniformLevel; decide⟩
